@@ -1,5 +1,6 @@
 import MdspanVerif.Props.C14h
 import MdspanVerif.Props.C11
+import MdspanVerif.Model.Access
 /-!
 # C03 — element access is `accessor.access(data_handle, mapping(indices...))` in every form
 
@@ -9,25 +10,6 @@ conversion of `indices[Idxs]` in the array / span forms), calls the mapping and 
 offset to the accessor.  With the default accessor the element is `data_handle()[offset]`.
 -/
 namespace Mdspan
-
-/-- the ways of passing the indices -/
-inductive AccessForm | pack | array | span | classType | bracketRank1
-deriving DecidableEq, Repr
-
-/-- conversion of one index argument of C++ type `S` to `index_type` `T` -/
-def convIdx (T S : ITy) (v : Int) : Int := T.wrap (S.wrap v)
-
-/-- what the mapping receives, whatever the spelling: the converted indices, in order -/
-def mappingArgs (T S : ITy) (_ : AccessForm) (args : List Int) : List Int := args.map (convIdx T S)
-
-/-- the offset handed to `accessor.access(data_handle, ·)` -/
-def accessOffset (T S : ITy) (f : AccessForm) (m : LayoutI) (args : List Int) : M Int :=
-  m.offM T (mappingArgs T S f args)
-
-/-- the element address with the default accessor (`p[i]`), as an offset from the buffer base -/
-def accessAddr (T S : ITy) (f : AccessForm) (v : MdsView Int LayoutI Int) (args : List Int) : M Int := do
-  let o ← accessOffset T S f v.m args
-  pure (v.h + o)
 
 /-- **C03 (all spellings agree)**: pack, array, span, class-type indices and the rank-1 bracket
     form designate the same element -/
